@@ -12,7 +12,8 @@ TRACE_CONSTS = dict(Idents=set(range(1, 13)), Fns=tlc.Lit('{}'), Lines=tlc.Lit('
                     MaxEvents=1000000, MaxDepth=100000, MaxGen=100000, TopOnly=False)
 
 LINE_MARKS = [('a', 'f_first'), ('a', 'f_second'), ('a', 'f_third'), ('a', 'f_second'), ('a', 'f_call'), ('a', 'f_plain'), ('a', 'f_last'), ('a', 'g_first'), ('a', 'g_last'),
-              ('b', 'f_first'), ('b', 'f_last'), ('b', 'g_last'), ('a', 'gen_first'), ('a', 'gen_yield')]
+              ('b', 'f_first'), ('b', 'f_last'), ('b', 'g_last'), ('a', 'gen_first'), ('a', 'gen_yield'),
+              ('a', 'ktag'), ('a', 'kf_first'), ('a', 'kf_last')]
 METHODS = [('a', 'f'), ('a', 'g'), ('b', 'f'), ('b', 'g'), ('a', 'gen'), ('a', 'nosuch')]
 
 
